@@ -62,6 +62,11 @@ def is_dispatch_raise(ctx, f, nd):
     return False
 
 
+def parses_string(c):
+    """int(x, base) / int(x, base=b): parsing a string in an explicit base raises ValueError on '' and on bad digits"""
+    return isinstance(c.func, ast.Name) and c.func.id == 'int' and (len(c.args) == 2 or any(k.arg == 'base' for k in c.keywords))
+
+
 def escapes(ctx, fq, _memo=None, _stack=()):
     """[(type, function, node, via)] of explicit exceptions that can leave function fq"""
     memo = _memo if _memo is not None else {}
@@ -84,6 +89,8 @@ def escapes(ctx, fq, _memo=None, _stack=()):
             typ = EXTERNAL_RAISERS[q]
             if not _caught(f, nd, typ):
                 out.append((typ, f, nd, 'call of ' + q))
+        if q == 'builtins.int' and parses_string(c) and not _caught(f, nd, 'ValueError'):
+            out.append(('ValueError', f, nd, 'call of int(text, base) (raises on the empty string)'))
         if callee is not None:
             for typ, g, n2, via in escapes(ctx, callee.fq, memo, _stack + (fq,)):
                 if not _caught(f, nd, typ):
